@@ -176,6 +176,39 @@ impl Check for HistoryCheck {
                 }
                 Ok(None) => {}
             }
+            // old handles can be extracted from (every 4th step and at the end)
+            if (k % 4 == 3 || k + 1 == run.ops.len()) && !s.tracked.is_empty() {
+                let ex = catch_op(|| -> Option<Violation> {
+                    let ext = Extractor::<LS, AstSize>::new(&s.eg, AstSize);
+                    for i in 0..s.tracked.len() {
+                        let h = s.tracked[i].h.clone();
+                        let re = ext.extract(&h, &s.eg);
+                        match lookup_rec_expr(&re, &s.eg) {
+                            None => return Some(viol("old_handle_unusable", format!("the term extracted from the old handle {h:?} ({re:?}) is not represented"), k)),
+                            Some(l) => {
+                                if !s.eg.eq(&l, &h) {
+                                    return Some(viol("old_handle_unusable", format!("the term extracted from the old handle {h:?} ({re:?}) is {l:?}, not equal to the handle"), k));
+                                }
+                            }
+                        }
+                    }
+                    None
+                });
+                match ex {
+                    Err(p) => {
+                        if p.loc.contains("/verif/sim/") {
+                            panic!("harness panic: {} at {}", p.msg, p.loc);
+                        }
+                        out.violations.push(panic_violation("C13", "old_handle_unusable", &p, k));
+                        break 'ops;
+                    }
+                    Ok(Some(v)) => {
+                        out.violations.push(v);
+                        break 'ops;
+                    }
+                    Ok(None) => out.count("old_handles_extracted", s.tracked.len() as u64),
+                }
+            }
             out.count("recorded_pairs_rechecked", equal_pairs.len() as u64);
             if changed && !equal_pairs.is_empty() {
                 rechecked_after_change = true;
